@@ -95,6 +95,35 @@ def run_case(ctx, case_seed, kind, prefix):
             r['model'] = (model_data, fresh(r['metadata']))
             cas.save_recording(rec)
             ctx.count('recordings_saved')
+        # saves that fail (the serializer cannot encode a value) are part of the history: such an id was never saved, and an
+        # earlier successful save under the same id must survive a failed re-save
+        if rng.random() < 0.35:
+            from vlib.programs import Unencodable
+            from playback.recordings.memory.memory_recording import MemoryRecording
+            bad = cas.create_new_recording(rng.choice(['Op', 'A']))
+            bad.set_data('ok', 1)
+            bad.set_data('bad', {'x': Unencodable()})
+            try:
+                cas.save_recording(bad)
+                ctx.count('unencodable_save_did_not_fail')
+            except Exception:
+                ctx.count('failed_saves')
+                try:
+                    got = box.reader().get_recording(bad.id)
+                    ctx.violation('an id whose only save attempt failed is fetchable on %s cassette (%s)' % (kind, type(got).__name__), dict(witness, id=bad.id))
+                except NoSuchRecording:
+                    ctx.count('failed_save_not_fetchable')
+                except Exception as ex:
+                    ctx.violation('fetching an id whose only save attempt failed raised %s instead of NoSuchRecording on %s cassette' % (type(ex).__name__, kind),
+                                  dict(witness, id=bad.id, error=repr(ex)[:200]))
+            if recs:
+                victim = rng.choice(recs)
+                again = MemoryRecording(victim['id'])
+                again.set_data('bad', Unencodable())
+                try:
+                    cas.save_recording(again)
+                except Exception:
+                    ctx.count('failed_resaves')
         reader = box.reader()
         for r in recs:
             check_fetch(ctx, reader, r, kind, witness)
